@@ -474,6 +474,19 @@ def scanCharEscape : M Nat := do
     else if !o.e && !o.re2 && E.orc.isWord ch then throw .unrecognizedEscape
     else pure ch
 
+/-- Go's `a && b()`: `b` runs only when `a` holds -/
+def andM (a : Bool) (b : M Bool) : M Bool := if a then b else pure false
+/-- Go's `a || b()` -/
+def orM (a : Bool) (b : M Bool) : M Bool := if a then pure true else b
+/-- `a() && b()` -/
+def andMM (a b : M Bool) : M Bool := do if (← a) then b else pure false
+/-- `p.rightChar(i) == c` -/
+def rcIs (i c : Nat) : M Bool := do let x ← rightChar E i; pure (x == c)
+/-- `p.rightChar(i) != c` -/
+def rcNe (i c : Nat) : M Bool := do let x ← rightChar E i; pure (x != c)
+/-- `p.moveRightGetChar() == c` -/
+def getIs (c : Nat) : M Bool := do let x ← moveRightGetChar E; pure (x == c)
+
 /-- `rightChar(0) == c` guarded by `charsRight() > 0` -/
 def nextIs (c : Nat) : M Bool := do
   let cr ← charsRight E
@@ -810,19 +823,19 @@ def csLoop : Nat → Bool → Bool → CS → M Class.Class
           let sub ← scanCharSet f ci false
           let c := { c with sub := some sub }
           let cr ← charsRight E
-          if cr > 0 ∧ (← rightChar E 0) ≠ 93 then throw .subtractionMustBeLast else next c
+          if (← andM (cr > 0) (rcNe E 0 93)) then throw .subtractionMustBeLast else next c
         else if c.chPrev > ch then throw .reversedCharRange
         else next (c.add cat (.range c.chPrev ch))
-      else if cr ≥ 2 ∧ (← rightChar E 0) = 45 ∧ (← rightChar E 1) ≠ 93 then do
+      else if (← andM (cr ≥ 2) (andMM (rcIs E 0 45) (rcNe E 1 93))) then do
         moveRight 1
         next { c with chPrev := ch, inRange := true }
-      else if cr ≥ 1 ∧ ch = 45 ∧ !translated ∧ (← rightChar E 0) = 91 ∧ !c.firstChar then
+      else if (← andM (cr ≥ 1 ∧ ch = 45 ∧ !translated) (rcIs E 0 91)) ∧ !c.firstChar then
         if !so then do
           moveRight 1
           let sub ← scanCharSet f ci false
           let c := { c with sub := some sub }
           let cr ← charsRight E
-          if cr > 0 ∧ (← rightChar E 0) ≠ 93 then throw .subtractionMustBeLast else next c
+          if (← andM (cr > 0) (rcNe E 0 93)) then throw .subtractionMustBeLast else next c
         else do
           moveRight 1
           ignoreErr (scanCharSet f ci true)
@@ -860,7 +873,7 @@ def csLoop : Nat → Bool → Bool → CS → M Class.Class
             else next { (c.add cat (.range c.chPrev ch)) with inRange := false }
           else do
             let cr ← charsRight E
-            if cr ≥ 2 ∧ (← rightChar E 0) = 45 ∧ (← rightChar E 1) ≠ 93 then do
+            if (← andM (cr ≥ 2) (andMM (rcIs E 0 45) (rcNe E 1 93))) then do
               let c := c.add cat (.range 45 45)
               moveRight 1
               let chLast ← moveRightGetChar E
@@ -878,11 +891,12 @@ def csLoop : Nat → Bool → Bool → CS → M Class.Class
         let v ← scanCharEscape E
         tail c v true
     else if ch = 91 then do
-      if cr > 0 ∧ (← rightChar E 0) = 58 ∧ !c.inRange then do
+      if (← andM (cr > 0) (rcIs E 0 58)) ∧ !c.inRange then do
         let savePos ← textpos
         moveRight 1
         let cr ← charsRight E
-        let negate ← (if cr > 1 ∧ (← rightChar E 0) = 94 then do moveRight 1; pure true else pure false : M Bool)
+        let negate ← andM (cr > 1) (rcIs E 0 94)
+        if negate then moveRight 1
         let nm ← scanWord E
         let c ← (if !so ∧ o.re2 then
             match namedASCII c.cc cat nm negate with
@@ -952,7 +966,7 @@ def scanBasicBackslash (scanOnly : Bool) : M RNode := do
   if angled ∧ isDigitCh ch then do
     let capnum ← scanDecimal E
     let cr ← charsRight E
-    if cr > 0 ∧ (← moveRightGetChar E) = close then
+    if (← andM (cr > 0) (getIs E close)) then
       if (← isCaptureSlot capnum) then pure (mkNodeM .ref o capnum) else throw .undefinedBackRef
     else charCode
   else if !angled ∧ 49 ≤ ch ∧ ch ≤ 57 then do
@@ -964,7 +978,7 @@ def scanBasicBackslash (scanOnly : Bool) : M RNode := do
   else if angled then do
     let capname ← scanCapname E
     let cr ← charsRight E
-    if !capname.isEmpty ∧ cr > 0 ∧ (← moveRightGetChar E) = close then
+    if (← andM (!capname.isEmpty ∧ cr > 0) (getIs E close)) then
       if scanOnly then pure dummy
       else match (← captureSlotFromName capname) with
         | some slot => pure (mkNodeM .ref o slot)
@@ -1040,13 +1054,13 @@ def scanGroupName (start close : Nat) : M (Option RNode) := do
       let cn ← (if E.ord then captureSlotFromName (itoaRunes capnum)
                 else do if (← isCaptureSlot capnum) then pure (some capnum) else pure none : M (Option Nat))
       let cr ← charsRight E
-      if cr > 0 ∧ (← rightChar E 0) ≠ close ∧ (← rightChar E 0) ≠ 45 then throw .invalidGroupName
+      if (← andM (cr > 0) (andMM (rcNe E 0 close) (rcNe E 0 45))) then throw .invalidGroupName
       else pure (cn, false)
     else if isGroupNameStartChar E o ch then do
       let capname ← scanCapname E
       let cn ← captureSlotFromName capname
       let cr ← charsRight E
-      if cr > 0 ∧ (← rightChar E 0) ≠ close ∧ (← rightChar E 0) ≠ 45 then
+      if (← andM (cr > 0) (andMM (rcNe E 0 close) (rcNe E 0 45))) then
         throw (if o.e then .invalidECMAGroupName else .invalidGroupName)
       else pure (cn, false)
     else if ch = 45 then pure (none, true)
@@ -1054,7 +1068,8 @@ def scanGroupName (start close : Nat) : M (Option RNode) := do
   let (capnum, proceed) := r1
   -- part after `-`
   let cr ← charsRight E
-  let uncapnum ← (if !o.e ∧ (capnum.isSome ∨ proceed) ∧ cr > 0 ∧ (← rightChar E 0) = 45 then do
+  let hasDash ← andM (!o.e ∧ (capnum.isSome ∨ proceed) ∧ cr > 0) (rcIs E 0 45)
+  let uncapnum ← (if hasDash then do
       moveRight 1
       let cr ← charsRight E
       if cr = 0 then throw .invalidGroupName else
@@ -1063,14 +1078,14 @@ def scanGroupName (start close : Nat) : M (Option RNode) := do
         let un ← scanDecimal E
         if !(← isCaptureSlot un) then throw .undefinedBackRef else
         let cr ← charsRight E
-        if cr > 0 ∧ (← rightChar E 0) ≠ close then throw .invalidGroupName else pure (some un)
+        if (← andM (cr > 0) (rcNe E 0 close)) then throw .invalidGroupName else pure (some un)
       else if E.orc.isWord ch then do
         let uncapname ← scanCapname E
         match (← captureSlotFromName uncapname) with
         | none => throw .undefinedNameRef
         | some un =>
           let cr ← charsRight E
-          if cr > 0 ∧ (← rightChar E 0) ≠ close then throw .invalidGroupName else pure (some un)
+          if (← andM (cr > 0) (rcNe E 0 close)) then throw .invalidGroupName else pure (some un)
       else throw .invalidGroupName
     else pure none : M (Option Nat))
   let cr ← charsRight E
@@ -1093,7 +1108,7 @@ def scanCondition : M (Option RNode) := do
       if isDigitCh ch then do
         let capnum ← scanDecimal E
         let cr ← charsRight E
-        if cr > 0 ∧ (← moveRightGetChar E) = 41 then
+        if (← andM (cr > 0) (getIs E 41)) then
           if (← isCaptureSlot capnum) then pure (some (mkNodeM .backRefCond o capnum))
           else throw .undefinedReference
         else throw .malformedReference
@@ -1102,7 +1117,7 @@ def scanCondition : M (Option RNode) := do
         match (← captureSlotFromName capname) with
         | some slot =>
           let cr ← charsRight E
-          if cr > 0 ∧ (← moveRightGetChar E) = 41 then pure (some (mkNodeM .backRefCond o slot)) else pure none
+          if (← andM (cr > 0) (getIs E 41)) then pure (some (mkNodeM .backRefCond o slot)) else pure none
         | none => pure none
       else pure none
     else pure none : M (Option RNode))
@@ -1114,11 +1129,11 @@ def scanCondition : M (Option RNode) := do
     textto (parenPos - 1)
     modify fun s => { s with ignoreNextParen := true }
     let cr ← charsRight E
-    if cr ≥ 3 ∧ (← rightChar E 1) = 63 then do
+    if (← andM (cr ≥ 3) (rcIs E 1 63)) then do
       let rc2 ← rightChar E 2
       if rc2 = 35 then throw .alternationCantHaveComment
       else if rc2 = 39 then throw .alternationCantCapture
-      else if cr ≥ 4 ∧ rc2 = 60 ∧ (← rightChar E 3) ≠ 33 ∧ (← rightChar E 3) ≠ 61 then throw .alternationCantCapture
+      else if (← andM (cr ≥ 4 ∧ rc2 = 60) (andMM (rcNe E 3 33) (rcNe E 3 61))) then throw .alternationCantCapture
       else pure (some (mkNode .exprCond o))
     else pure (some (mkNode .exprCond o))
 
@@ -1186,7 +1201,7 @@ def scanGroupOpen : M (Option RNode) := do
         let capname ← scanCapname E
         let capnum ← captureSlotFromName capname
         let cr ← charsRight E
-        if cr > 0 ∧ (← rightChar E 0) ≠ 62 then throw .invalidGroupName
+        if (← andM (cr > 0) (rcNe E 0 62)) then throw .invalidGroupName
         else if capnum.isSome ∧ cr > 0 then do
           let c ← moveRightGetChar E
           if c = 62 then do
@@ -1213,14 +1228,14 @@ def countStep : M Unit := do
     if !(← emptyOptionsStack) then popOptions
   else if ch = 40 then do
     let cr ← charsRight E
-    if cr ≥ 2 ∧ (← rightChar E 1) = 35 ∧ (← rightChar E 0) = 63 then do
+    if (← andM (cr ≥ 2) (andMM (rcIs E 1 35) (rcIs E 0 63))) then do
       moveLeft
       ignoreErr (scanBlank E)
       modify fun s => { s with ignoreNextParen := false }
     else do
       pushOptions
       let cr ← charsRight E
-      if cr > 0 ∧ (← rightChar E 0) = 63 then do
+      if (← andM (cr > 0) (rcIs E 0 63)) then do
         moveRight 1
         let cr ← charsRight E
         let c0 ← (if cr > 0 then rightChar E 0 else pure 0 : M Nat)
@@ -1235,7 +1250,7 @@ def countStep : M Unit := do
               let capname ← scanCapname E
               noteCaptureName E capname
           modify fun s => { s with ignoreNextParen := false }
-        else if o.re2 ∧ cr > 2 ∧ c0 = 80 ∧ (← rightChar E 1) = 60 then do
+        else if (← andM (o.re2 ∧ cr > 2 ∧ c0 = 80) (rcIs E 1 60)) then do
           moveRight 2
           let ch ← rightChar E 0
           if E.orc.isWord ch then do
@@ -1245,11 +1260,11 @@ def countStep : M Unit := do
         else do
           scanOptions E
           let cr ← charsRight E
-          if cr > 0 ∧ (← rightChar E 0) = 41 then do
+          if (← andM (cr > 0) (rcIs E 0 41)) then do
             moveRight 1
             popKeepOptions
             modify fun s => { s with ignoreNextParen := false }
-          else if cr > 0 ∧ (← rightChar E 0) = 40 then
+          else if (← andM (cr > 0) (rcIs E 0 40)) then
             -- `continue`: ignoreNextParen stays set
             modify fun s => { s with ignoreNextParen := true }
           else modify fun s => { s with ignoreNextParen := false }
@@ -1295,7 +1310,7 @@ def scanQuantifier (ch : Nat) : M Unit := do
           if (← nextIs E 44) then do
             moveRight 1
             let cr ← charsRight E
-            if cr = 0 ∨ (← rightChar E 0) = 125 then pure maxInt32 else scanDecimal E
+            if (← orM (cr = 0) (rcIs E 0 125)) then pure maxInt32 else scanDecimal E
           else pure min
         else pure min : M Nat)
       let pos2 ← textpos
@@ -1374,7 +1389,7 @@ def scanStep (isQuant0 : Bool) : M (Sum Bool Unit) := do
     after isQuant
   else if ch = 40 then do
     let cr ← charsRight E
-    if o.re2 ∧ cr ≥ 3 ∧ (← rightChar E 0) = 63 ∧ (← rightChar E 1) = 80 ∧ (← rightChar E 2) = 61 then do
+    if (← andM (o.re2 ∧ cr ≥ 3) (andMM (rcIs E 0 63) (andMM (rcIs E 1 80) (rcIs E 2 61)))) then do
       let nd ← scanPythonNamedBackref E
       setUnit (some nd)
       after isQuant
